@@ -32,8 +32,10 @@ impl PanicRec {
             self.file, self.line, self.thread, self.msg
         )
     }
-    pub fn in_anemo(&self) -> bool {
-        self.file.contains("anemo")
+    /// true if the panic site is in the code under test (or one of its dependencies), false
+    /// if it is in the harness' own sources
+    pub fn in_repo(&self) -> bool {
+        !(self.file.starts_with("src/") || self.file.contains("/verif/harness/") || self.file.contains("/verif/fuzz/"))
     }
 }
 
